@@ -288,7 +288,7 @@ def run(ctx: Ctx, rs: RuleSet, tier: str):
       if scope is not None and p.resolve(call.func, scope) == MD:
         ctors.append((q, call, scope))
   for q, call, scope in ctors:
-    ok = q == f'{CFG}._buildable_flatten'
+    ok = q == ctx.func(f'{CFG}._buildable_flatten').qualname
     rs.check(ok, rule, f'{q}:BuildableTraverserMetadata(...)',
              'constructed by the flatten function' if ok else
              f'{q} constructs traversal metadata itself: tags may be dropped',
